@@ -134,7 +134,7 @@ fn c_start(bytes_without_nul: &[u8], pf: f64, bf: f64) -> (u32, *mut MaybenotFra
     (code, p)
 }
 
-fn deterministic_params() -> MachineParams {
+pub fn deterministic_params() -> MachineParams {
     let mut mp = MachineParams {
         max_states: 4,
         dist: DistProfile::Const,
@@ -151,7 +151,7 @@ fn deterministic_params() -> MachineParams {
 }
 
 /// budgets whose decisions never depend on the wall clock the C API reads itself
-fn clock_independent(mut m: MachineSpec) -> MachineSpec {
+pub fn clock_independent(mut m: MachineSpec) -> MachineSpec {
     m.max_blocking_frac = Fx(0.0);
     m
 }
@@ -219,7 +219,7 @@ impl Prop for C20 {
                     })
                     .boxed()
             }
-            "null" => (0u8..6, proptest::collection::vec(machine(&mp).prop_map(clock_independent), 0..=3))
+            "null" => (0u8..9, proptest::collection::vec(machine(&mp).prop_map(clock_independent), 0..=3))
                 .prop_map(|(which, machines)| Case::Null { which, machines })
                 .boxed(),
             _ => panic!("unknown profile"),
@@ -518,6 +518,10 @@ impl Prop for C20 {
                             2 => maybenot_on_events(inst, std::ptr::null(), 1, buf.as_mut_ptr(), &mut count),
                             3 => maybenot_on_events(inst, evs.as_ptr(), 1, std::ptr::null_mut(), &mut count),
                             4 => maybenot_on_events(inst, evs.as_ptr(), 1, buf.as_mut_ptr(), std::ptr::null_mut()),
+                            // null pointers together with an empty batch are still null pointers
+                            6 => maybenot_on_events(inst, std::ptr::null(), 0, buf.as_mut_ptr(), &mut count),
+                            7 => maybenot_on_events(inst, evs.as_ptr(), 0, std::ptr::null_mut(), &mut count),
+                            8 => maybenot_on_events(inst, evs.as_ptr(), 0, buf.as_mut_ptr(), std::ptr::null_mut()),
                             _ => {
                                 let nm = maybenot_num_machines(null_inst);
                                 if nm != 0 {
